@@ -16,6 +16,13 @@ enum Case {
     Stream { docs: Vec<Node>, layout: Layout, slack: Vec<u8> },
     /// per-document enforcement: the verdict for `doc` must not depend on the prefix
     PerDoc { prefix: Vec<u8>, doc: u8, tighten: Option<Counter> },
+    /// per-document enforcement with a single limit: only `counter` is limited (to the final
+    /// document's own usage), so earlier documents that exceed just that counter are rejected
+    /// through it - and must leave nothing behind
+    PerDocSingle { prefix: Vec<u8>, doc: u8, counter: Counter },
+    /// per-document enforcement of the alias/anchor ratio: the stream prefix + doc + suffix
+    /// reports a ratio breach iff `doc` read alone does (all other documents are within it)
+    PerDocRatio { prefix: Vec<u8>, doc: u8, suffix: bool, reject: bool },
 }
 
 fn budget_with(c: Counter, v: usize) -> BudgetD {
@@ -66,11 +73,8 @@ fn find_budget(e: &serde_saphyr::Error) -> Option<(Option<Counter>, bool, u64, u
             let ratio = matches!(breach, serde_saphyr::budget::BudgetBreach::AliasAnchorRatio { .. });
             Some((breach_counter(breach), ratio, l, c))
         }
-        serde_saphyr::Error::AliasError { .. } => {
-            // an error raised while replaying an alias is wrapped; look at its text
-            let t = inner.to_string();
-            if t.contains("budget") { Some((None, false, 0, 0)) } else { None }
-        }
+        // (a breach met while an alias is replayed is still "the matching budget error": an
+        // `AliasError` that carries the breach as text is not)
         _ => None,
     }
 }
@@ -199,6 +203,21 @@ fn check_stream(docs: &[Node], layout: &Layout, slack: &[u8]) -> Outcome {
         return Outcome::Fail(format!("budget {b:?} >= usage {u:?} in every component, but rejected: {m} (text {text:?})"));
     }
 
+    // rustdoc of Budget: breached "when aliases > alias_anchor_ratio_multiplier x anchors (after
+    // scanning), once alias_anchor_min_aliases is met": a document without aliases never is
+    if u.aliases == 0 {
+        for (min, mult) in [(0usize, 0usize), (0, 10)] {
+            let mut b = BudgetD::unlimited();
+            b.enforce_ratio = true;
+            b.ratio_min_aliases = min;
+            b.ratio_multiplier = mult;
+            match run_stream(&text, &b, None) {
+                R::Ok => {}
+                R::Budget(_, _, _, _, m) => return Outcome::Fail(format!("ratio heuristic (min {min}, multiplier {mult}) rejected a document without aliases (anchors={}): {m} (text {text:?})", u.anchors)),
+                R::Other(m) => return Outcome::Fail(format!("ratio check: unexpected error {m} (text {text:?})")),
+            }
+        }
+    }
     // ratio heuristic around its boundary
     if u.aliases > 0 && u.anchors > 0 {
         for (min, mult) in [
@@ -321,12 +340,121 @@ fn check_perdoc(prefix: &[u8], doc: u8, tighten: Option<Counter>) -> Outcome {
     Outcome::Pass
 }
 
+/// all items of the streaming iterator over `text`: Ok / Budget(..) / Err(..)
+fn all_verdicts(text: &str, b: &BudgetD) -> Result<Vec<String>, String> {
+    let o = DeOpts { budget: BudgetSel::Explicit(b.clone()), ..DeOpts::default() }.build();
+    let mut rd = Bytes(text.as_bytes());
+    let mut out = vec![];
+    for r in serde_saphyr::read_with_options::<_, DocT>(&mut rd, o) {
+        if out.len() > text.len() + 2 {
+            return Err("iterator does not terminate".into());
+        }
+        out.push(match r {
+            Ok(v) => format!("Ok({v:?})"),
+            Err(e) => match find_budget(&e) {
+                Some((c, ratio, _, _)) => format!("Budget({c:?}, ratio={ratio})"),
+                None => format!("Err({})", e.without_snippet()),
+            },
+        });
+    }
+    Ok(out)
+}
+
+fn check_perdoc_single(prefix: &[u8], doc: u8, counter: Counter) -> Outcome {
+    let d = DOCS[doc as usize % DOCS.len()];
+    let an = match usage::analyze(d) {
+        Ok(a) => a,
+        Err(_) => return Outcome::Discard("selfcheck-analyze"),
+    };
+    let u = &an.per_doc[0];
+    if counter == Counter::Documents {
+        return Outcome::Discard("not-per-document");
+    }
+    // (whether the document-start event belongs to the per-document event count is not fixed:
+    // one event of head-room)
+    let lim = u.get(counter) + usize::from(counter == Counter::Events);
+    let b = budget_with(counter, lim);
+    let alone = last_verdict(d, &b);
+    match &alone {
+        Ok(v) if !v.starts_with("Ok") => return Outcome::Fail(format!("document alone rejected although only {counter:?} is limited, to its own usage {lim}: {v} (doc {d:?})")),
+        Err(e) => return Outcome::Fail(format!("document alone: {e}")),
+        _ => {}
+    }
+    let mut text = String::new();
+    for p in prefix {
+        text.push_str(PREFIX_KINDS[*p as usize % PREFIX_KINDS.len()]);
+    }
+    text.push_str(d);
+    let in_stream = last_verdict(&text, &b);
+    if in_stream != alone {
+        return Outcome::Fail(format!(
+            "per-document enforcement: the verdict for the last document depends on what was read before: alone {alone:?}, after {} earlier documents {in_stream:?} (only {counter:?} limited to {lim}, stream {text:?})",
+            prefix.len()
+        ));
+    }
+    Outcome::Pass
+}
+
+fn check_perdoc_ratio(prefix: &[u8], doc: u8, suffix: bool, reject: bool) -> Outcome {
+    // the two final documents with aliases
+    let d = [DOCS[0], DOCS[2]][doc as usize % 2];
+    let an = match usage::analyze(d) {
+        Ok(a) => a,
+        Err(_) => return Outcome::Discard("selfcheck-analyze"),
+    };
+    let u = &an.per_doc[0];
+    if u.aliases == 0 || u.anchors == 0 {
+        return Outcome::Discard("selfcheck-no-aliases");
+    }
+    let mut b = BudgetD::unlimited();
+    b.enforce_ratio = true;
+    b.ratio_min_aliases = 1;
+    // breach iff aliases > multiplier x anchors
+    b.ratio_multiplier = if reject { (u.aliases - 1) / u.anchors } else { u.aliases.div_ceil(u.anchors) };
+    let breached = |items: &[String]| items.iter().any(|i| i.starts_with("Budget("));
+    let alone = match all_verdicts(d, &b) {
+        Ok(v) => v,
+        Err(e) => return Outcome::Fail(format!("document alone: {e}")),
+    };
+    if breached(&alone) != reject {
+        return Outcome::Fail(format!("ratio heuristic (multiplier {}) on a document with aliases={} anchors={} read alone through the iterator: items {alone:?}", b.ratio_multiplier, u.aliases, u.anchors));
+    }
+    let mut parts: Vec<&str> = prefix.iter().map(|p| PREFIX_KINDS[*p as usize % PREFIX_KINDS.len()]).collect();
+    parts.push(d);
+    if suffix {
+        parts.push(DOCS[1]);
+    }
+    // every other document must be within the ratio when read alone
+    for (i, p) in parts.iter().enumerate() {
+        if i == prefix.len() {
+            continue;
+        }
+        match all_verdicts(p, &b) {
+            Ok(v) if !breached(&v) => {}
+            _ => return Outcome::Discard("neighbour-breaches-ratio"),
+        }
+    }
+    let text: String = parts.concat();
+    let in_stream = match all_verdicts(&text, &b) {
+        Ok(v) => v,
+        Err(e) => return Outcome::Fail(format!("stream: {e}")),
+    };
+    if breached(&in_stream) != reject {
+        return Outcome::Fail(format!(
+            "per-document enforcement of the alias/anchor ratio depends on the position in the stream: the document alone gives {alone:?}, the stream gives {in_stream:?} (multiplier {}, stream {text:?})",
+            b.ratio_multiplier
+        ));
+    }
+    Outcome::Pass
+}
+
 struct C07;
 
 fn nontrivial(c: &Case) -> bool {
     match c {
         Case::Stream { docs, .. } => docs.iter().any(|d| d.has_alias() && d.depth() >= 2),
-        Case::PerDoc { prefix, .. } => !prefix.is_empty(),
+        Case::PerDoc { prefix, .. } | Case::PerDocSingle { prefix, .. } => !prefix.is_empty(),
+        Case::PerDocRatio { prefix, suffix, .. } => !prefix.is_empty() || *suffix,
     }
 }
 
@@ -382,6 +510,8 @@ impl Property for C07 {
         match c {
             Case::Stream { docs, layout, slack } => check_stream(docs, layout, slack),
             Case::PerDoc { prefix, doc, tighten } => check_perdoc(prefix, *doc, *tighten),
+            Case::PerDocSingle { prefix, doc, counter } => check_perdoc_single(prefix, *doc, *counter),
+            Case::PerDocRatio { prefix, doc, suffix, reject } => check_perdoc_ratio(prefix, *doc, *suffix, *reject),
         }
     }
     fn signatures(c: &Case) -> Vec<&'static str> {
@@ -438,6 +568,20 @@ impl Property for C07 {
                     let mut p = prefix.clone();
                     p.remove(i);
                     out.push(Case::PerDoc { prefix: p, doc: *doc, tighten: *tighten });
+                }
+            }
+            Case::PerDocSingle { prefix, doc, counter } => {
+                for i in 0..prefix.len() {
+                    let mut p = prefix.clone();
+                    p.remove(i);
+                    out.push(Case::PerDocSingle { prefix: p, doc: *doc, counter: *counter });
+                }
+            }
+            Case::PerDocRatio { prefix, doc, suffix, reject } => {
+                for i in 0..prefix.len() {
+                    let mut p = prefix.clone();
+                    p.remove(i);
+                    out.push(Case::PerDocRatio { prefix: p, doc: *doc, suffix: *suffix, reject: *reject });
                 }
             }
         }
@@ -512,6 +656,24 @@ impl Property for C07 {
                     cc /= PREFIX_KINDS.len();
                 }
                 for doc in 0..DOCS.len() as u8 {
+                    for c in COUNTERS.iter().filter(|c| **c != Counter::Documents) {
+                        idx += 1;
+                        total += 1;
+                        if ctx.mine(idx) {
+                            let c = Case::PerDocSingle { prefix: prefix.clone(), doc, counter: *c };
+                            ctx.case("per-document-single-limit", &c, len > 0);
+                        }
+                    }
+                    if doc < 2 {
+                        for (suffix, reject) in [(false, false), (false, true), (true, false), (true, true)] {
+                            idx += 1;
+                            total += 1;
+                            if ctx.mine(idx) {
+                                let c = Case::PerDocRatio { prefix: prefix.clone(), doc, suffix, reject };
+                                ctx.case("per-document-ratio", &c, len > 0 || suffix);
+                            }
+                        }
+                    }
                     for t in &tightens {
                         idx += 1;
                         total += 1;
@@ -523,7 +685,7 @@ impl Property for C07 {
                 }
             }
         }
-        ctx.subspace(&format!("prefix sequences of length <= {maxlen} over 7 kinds x 4 final documents x (exact budget + 7 lowered limits)"), total, true);
+        ctx.subspace(&format!("prefix sequences of length <= {maxlen} over 7 kinds x 4 final documents x (exact budget + 7 lowered limits + 7 single limits) + 2 final documents with aliases x ratio boundary x with / without a following document"), total, true);
     }
 }
 
